@@ -330,6 +330,15 @@ def part_a(tier, seed):
                 for _ in range(n_rand // 6):         # two answers: (ACK | RTOX | ATN | INF) then anything
                     a = fr(code + bytes([rnd.choice([0x40, 0x41, 0x90, 0x80, 0x10, 0x11, 0x00, 0x01])]) + rnd.choice([b"", b"\x01", b"\x3b", b"ab"]))
                     scripts.append([a, rnd.choice(valid + [fr(code + bytes([rnd.getrandbits(8)]) + bytes(rnd.getrandbits(8) for _ in range(rnd.randint(0, 3))))])])
+                # a chained answer (MI set) first, then every PFB with and without payload octets: the receive-chaining
+                # loop of exchange() sees the second frame
+                first_mi = fr(code + b"\x10" + b"abc") if role == "I" else None
+                if first_mi is not None:
+                    for pfb in range(256) if not quick else list(range(0, 256, 5)) + [0x90, 0x91, 0x80, 0x40, 0x41, 0x11, 0x01]:
+                        for tail in (b"", b"\x01", b"\x00\x00", b"xyz"):
+                            scripts.append([first_mi, fr(code + bytes([pfb]) + tail)])
+                            if pfb in (0x90, 0x91, 0x41, 0x11):
+                                scripts.append([first_mi, fr(code + b"\x11" + b"de"), fr(code + bytes([pfb]) + tail)])
                 for sc in scripts:
                     for did in (None, 1):
                         for chain in (False, True):
